@@ -215,7 +215,7 @@ def run(c):
     # ------------------------------------------------------------------ 1. design
     mcs = [dict(ProgSel=1, MaxS=2, MaxM=2, MaxL=1), dict(ProgSel=2, MaxS=2, MaxM=2, MaxL=1, ChanCap=2)] if q else \
           [dict(ProgSel=1, MaxS=3, MaxM=3, MaxL=2, AllowFail="TRUE"), dict(ProgSel=2, MaxS=3, MaxM=3, MaxL=2, ChanCap=2),
-           dict(ProgSel=3, MaxS=3, MaxM=3, MaxL=2), dict(ProgSel=2, MaxS=2, MaxM=4, MaxL=1, AllowFail="TRUE")]
+           dict(ProgSel=3, MaxS=3, MaxM=3, MaxL=2)]
     for i, kw in enumerate(mcs):
         c.tlc_must_pass("BatchProcessor", "BatchMC", cfg_text=mc_cfg(**kw), coverage=(i == 0), timeout=900,
                         label="design%d" % i, vacuous_ok=("Next", "Choose"))
@@ -242,18 +242,19 @@ def run(c):
         behs += generate(c, "gen_keyed", 3, [2, 5], ["a", "c", "f"], keyed[:6])
         behs += generate(c, "gen_sim", 5, all_shapes, ["a", "b", "d", "f"], unkeyed + keyed, simulate="num=300", depth=120)
     else:
-        behs += generate(c, "gen_unkeyed", 3, all_shapes, ["a"], unkeyed)
-        behs += generate(c, "gen_keyed", 3, [1, 2, 5, 9], ["a", "c", "f"], keyed)
+        behs += generate(c, "gen_unkeyed2", 2, all_shapes, ["a"], unkeyed)
+        behs += generate(c, "gen_unkeyed3", 3, [2, 3, 5, 6, 9], ["a"], unkeyed)
+        behs += generate(c, "gen_keyed", 3, [2, 5, 9], ["a", "c", "f"], keyed[:6])
         for k in range(3):
             c.seed += 1000
             behs += generate(c, "gen_sim%d" % k, 8, all_shapes, ["a", "b", "c", "d", "e", "f"], unkeyed + keyed,
-                             simulate="num=2000", depth=250)
+                             simulate="num=1000", depth=250)
         c.seed -= 3000
     c.exhaustive = True
     scripts = seq_scripts(behs, lib, SIGNALS, 1)
     c.log("generated %d behaviours -> %d sequential scripts" % (len(behs), len(scripts)))
     # ------------------------------------------------------------------ 3. concurrent scripts
-    conc = conc_scripts(c, lib, 150 if q else 1200, len(scripts) + 1)
+    conc = conc_scripts(c, lib, 150 if q else 1500, len(scripts) + 1)
     total_viol = 0
     drift = 0
     nontrivial = 0
